@@ -4,6 +4,8 @@
 pub use crate::storage::{ChainStorage, StorageConfig, TraceStorage};
 pub use crate::sampler_stats::StatsDims;
 pub use crate::storage::HashMapResult;
+/// Hook H5: the low-rank estimate for an explicit window (see `verif_estimate`).
+pub use crate::transform::verif_lowrank_estimate as lowrank_estimate;
 
 /// Read-only view of the adaptation schedule counters (hook H4).
 #[derive(Debug, Clone, Copy, PartialEq, Eq)]
